@@ -130,7 +130,10 @@ Section SeqProofs.
     repeat match goal with
     | b : bool |- _ => destruct b
     | v : verdict |- _ => destruct v
-    end; cbn in *; intuition (try discriminate; try congruence).
+    end; cbn in *;
+    try solve [ repeat match goal with H : _ /\ _ |- _ => destruct H end;
+                repeat split; intros; try discriminate; try reflexivity; auto ];
+    intuition (try discriminate; try congruence).
 
   (* pure propositional steps over (failure, continues, stuck, prior, verdict) *)
   Lemma good_assert_fail_only : forall pr ci vr,
@@ -289,3 +292,104 @@ Lemma seq_escape_refuted :
     foundry_run bool i (map (pstep_of bool) p) = VFail /\
     run_prog bool check lit_false e p = None.
 Proof. exact (conj eq_refl (conj unicode_escapes escape_loses_failures)). Qed.
+
+(* ================================================================== 3. what a table handler can raise *)
+(* mk_cond's ValueError (caught by no clause, see valueerror_escapes) is unreachable from the
+   handlers of the table, on ANY calldata: one-word operands are always 32 bytes, and the
+   bytes / array handlers only ever use Eq / NotEq *)
+Lemma extract_bytes_length : forall data off n,
+  List.length (extract_bytes data off n) = Z.to_nat n.
+Proof.
+  intros. unfold extract_bytes, pad_right. rewrite app_length, repeat_length, firstn_length. lia.
+Qed.
+
+Lemma extract_bytes_32 : forall data off, List.length (extract_bytes data off 32) = 32%nat.
+Proof. intros. rewrite extract_bytes_length. reflexivity. Qed.
+
+Lemma eq_like_noraise : forall bop b, (bop = "Eq" \/ bop = "NotEq")%string -> eq_like bop b <> CRaise.
+Proof. intros bop b [-> | ->]; cbn; discriminate. Qed.
+
+Lemma mk_cond_eqlike_noraise : forall bop v1 v2,
+  (bop = "Eq" \/ bop = "NotEq")%string -> mk_cond bop v1 v2 <> CRaise.
+Proof.
+  intros bop v1 v2 H. unfold mk_cond.
+  destruct (is_empty v1 && is_empty v2); [apply eq_like_noraise, H|].
+  destruct (is_empty v1 || is_empty v2); [apply eq_like_noraise, H|].
+  destruct (negb (8 * zlen v1 =? 8 * zlen v2)); [apply eq_like_noraise, H|].
+  destruct H as [-> | ->].
+  - change (String.eqb "Eq" "Eq") with true. cbv iota. discriminate.
+  - change (String.eqb "NotEq" "Eq") with false. change (String.eqb "NotEq" "NotEq") with true.
+    cbv iota. discriminate.
+Qed.
+
+Definition known_bop (b : string) : bool :=
+  str_in b ["Eq"; "NotEq"; "ULt"; "UGt"; "ULe"; "UGe"; "SLt"; "SGt"; "SLe"; "SGe"]%string.
+
+Lemma mk_cond_word_noraise : forall bop l1 l2,
+  List.length l1 = 32%nat -> List.length l2 = 32%nat -> known_bop bop = true ->
+  mk_cond bop l1 l2 <> CRaise.
+Proof.
+  intros bop l1 l2 H1 H2 Hk. rewrite mk_cond_word by assumption. cbv zeta.
+  unfold known_bop, str_in in Hk. cbn [existsb] in Hk.
+  repeat match goal with
+  | |- context [String.eqb bop ?s] => destruct (String.eqb bop s); [discriminate|]
+  end.
+  cbn in Hk. discriminate.
+Qed.
+
+Lemma with_msg_value_error : forall c log data idx,
+  with_msg c log data idx = RValueError -> c = CRaise.
+Proof.
+  intros [b|] log data idx H; [|reflexivity]. unfold with_msg in H.
+  destruct log; [destruct (utf8_valid _)|]; discriminate.
+Qed.
+
+Lemma with_msg_no_raise : forall c log data idx cls, with_msg c log data idx <> RRaise cls.
+Proof.
+  intros [b|] log data idx cls; unfold with_msg; [|discriminate].
+  destruct log; [destruct (utf8_valid _)|]; discriminate.
+Qed.
+
+Lemma run_handler_raise : forall h cd cls, run_handler h cd = RRaise cls -> cls = unsupported_class.
+Proof.
+  intros [bop log|bop log|bop log|bop typ|e log] cd cls E; cbn [run_handler] in E;
+    try (exfalso; exact (with_msg_no_raise _ _ _ _ _ E)).
+  inversion E. reflexivity.
+Qed.
+
+Lemma no_value_error : forall d cd,
+  In d all_descrs -> run_handler (expected_handler d) cd <> RValueError.
+Proof.
+  intros [o t a m] cd Hd Heq. pose proof (all_descrs_valid _ Hd) as Hv.
+  remember (expected_handler (mkDescr o t a m)) as h eqn:Hh.
+  destruct o, t, a; try (vm_compute in Hv; discriminate Hv); vm_compute in Hh; subst h;
+    cbn [run_handler] in Heq;
+    match type of Heq with
+    | RRaise _ = _ => discriminate Heq
+    | _ => apply with_msg_value_error in Heq
+    end;
+    match type of Heq with
+    | CBool _ = _ => discriminate Heq
+    | mk_cond _ (extract_bytes _ _ _) _ = _ =>
+        revert Heq; apply mk_cond_word_noraise; [apply extract_bytes_32|apply extract_bytes_32|reflexivity]
+    | mk_cond "Eq" _ _ = _ => revert Heq; apply mk_cond_eqlike_noraise; left; reflexivity
+    | mk_cond "NotEq" _ _ = _ => revert Heq; apply mk_cond_eqlike_noraise; right; reflexivity
+    end.
+Qed.
+
+(* so the only classes a handler of the table can raise, whatever the calldata, are the one of
+   the unsupported overloads (a stuck path) and UnicodeDecodeError (the known finding) *)
+Lemma handler_raises_only : forall d cd h,
+  In d all_descrs -> mk_assert_handler (render d) = Some h ->
+  hres_raises (run_handler h cd) = None
+  \/ hres_raises (run_handler h cd) = Some unsupported_class
+  \/ hres_raises (run_handler h cd) = Some "UnicodeDecodeError"%string.
+Proof.
+  intros d cd h Hd Hh. rewrite (handler_of_render d Hd) in Hh. inversion Hh; subst h.
+  pose proof (no_value_error d cd Hd) as Hn.
+  destruct (run_handler (expected_handler d) cd) as [c msg| |cls|] eqn:E; cbn [hres_raises].
+  - left. reflexivity.
+  - contradiction Hn. reflexivity.
+  - right. left. f_equal. exact (run_handler_raise _ _ _ E).
+  - right. right. reflexivity.
+Qed.
